@@ -4,6 +4,7 @@ package boltz
 
 import (
 	"strings"
+	"time"
 
 	"go.etcd.io/bbolt"
 
@@ -83,7 +84,7 @@ func VerifC10_QueriesOnEmptyAndNullData() {
 
 // ---- every left-operand kind the person store offers x every use ----
 
-var vC10StoreLhs = []string{"s", "i", "id", "roles", "boss", "boss.s", "boss.roles", "boss.boss.roles", "reports", "reports.s", "reports.roles", "reports.reports", "tags.k", "tags", "nosuch", "boss.nosuch"}
+var vC10StoreLhs = []string{"s", "i", "f", "o", "d", "n", "xs", "xb", "nn", "boss.f", "reports.d", "id", "roles", "boss", "boss.s", "boss.roles", "boss.boss.roles", "reports", "reports.s", "reports.roles", "reports.reports", "tags.k", "tags", "nosuch", "boss.nosuch"}
 
 func verifC10StoreShapes() []string {
 	var qs []string
@@ -125,12 +126,14 @@ func VerifC10_StoreQueryShapes() {
 		if !withData {
 			return store.Create(ctx, &vPerson{Id: "ab"})
 		}
-		sv, iv, boss := "a", int64(1), "a"
-		if err := store.Create(ctx, &vPerson{Id: "ab", S: &sv, I: &iv, Boss: &boss, Roles: []string{"a"}, Tag: int64(1)}); err != nil {
+		// "a" (smallest id) has every field null; the others carry values
+		sv, iv, boss, fv, ov, nv := "a", int64(1), "a", 1.5, true, int32(-1)
+		dv := time.Date(2020, 1, 2, 3, 4, 5, 0, time.UTC)
+		if err := store.Create(ctx, &vPerson{Id: "ab", S: &sv, I: &iv, Boss: &boss, Roles: []string{"a"}, Tag: int64(1), F: &fv, O: &ov, D: &dv, N: &nv}); err != nil {
 			return err
 		}
 		b2 := "ab"
-		return store.Create(ctx, &vPerson{Id: "b", S: &sv, Boss: &b2, Roles: []string{"a", "b"}, Tag: "a"})
+		return store.Create(ctx, &vPerson{Id: "b", S: &sv, Boss: &b2, Roles: []string{"a", "b"}, Tag: "a", F: &fv, D: &dv})
 	})
 	verifrt.Assert(err == nil, "C10 setup creates succeed")
 	env.view(func(tx *bbolt.Tx) {
